@@ -40,7 +40,7 @@ def jobs(tier, seed):
         res = ['--cases', 720]
         to = 600
     else:
-        lru = ['--depth', 5, '--small-depth', 4, '--keys', 2, '--hashes', 8, '--random', 2000, '--oplen', 10000]
+        lru = ['--depth', 5, '--small-depth', 4, '--keys', 1, '--hashes', 8, '--random', 2000, '--oplen', 10000]
         res = ['--cases', 12000]
         to = 3600
     js = [Job('lru%d' % i, 'h_lru', ['--seed', seed, '--worker', i, '--nworkers', NW] + lru, timeout=to)
